@@ -156,9 +156,10 @@ PROPS["C20"] = dict(
 )
 
 PROPS["C16"] = dict(
+    gen=[("tables", "ServlinVerif/Gen/CodeTables.lean")],
     thorough_seeds=2,
     suites=["c16"],
-    lean_modules=["ServlinVerif.Props.C16"],
+    lean_modules=["ServlinVerif.Props.C16", "ServlinVerif.Props.CodeTables"],
     audit="Audit/C16.lean",
     rule="quick: both ends + one inner second of every day 1970-01-01..2410; +-1 s around every year start and Feb 28/29/Mar 1 for all years "
          "to 9999; every 61st second of 8 selected days; 20k random instants to year 9999 and 4 beyond; additions from the first and last day "
@@ -226,8 +227,9 @@ PROPS["C01"] = dict(
 )
 
 PROPS["C03"] = dict(
+    gen=[("tables", "ServlinVerif/Gen/CodeTables.lean")],
     suites=["c03", "c03b"],
-    lean_modules=["ServlinVerif.Props.C03", "ServlinVerif.Props.C05", "ServlinVerif.Props.C04Pipeline"],
+    lean_modules=["ServlinVerif.Props.C03", "ServlinVerif.Props.C05", "ServlinVerif.Props.C04Pipeline", "ServlinVerif.Props.CodeTables"],
     audit="Audit/C03.lean",
     rule="read_http_request on the cross product method {GET,HEAD,POST,PUT,DELETE,PATCH} x 20 Content-Length multisets (absent, 0, 5, 2^64-1, "
          "2^64, +5, -5, 0005, abc, empty, repeated equal/different, lists, VT-padded...) x 15 Transfer-Encoding multisets (absent, chunked, "
@@ -275,8 +277,9 @@ PROPS["C02"] = dict(
 )
 
 PROPS["C06"] = dict(
+    gen=[("tables", "ServlinVerif/Gen/CodeTables.lean")],
     suites=["c06", "c07"],
-    lean_modules=["ServlinVerif.Props.C06", "ServlinVerif.Props.C06RoundTrip", "ServlinVerif.Props.C06Chunked", "ServlinVerif.Props.C07"],
+    lean_modules=["ServlinVerif.Props.C06", "ServlinVerif.Props.C06RoundTrip", "ServlinVerif.Props.C06Chunked", "ServlinVerif.Props.C07", "ServlinVerif.Props.CodeTables"],
     audit="Audit/C06.lean",
     rule="write_http_response(scripted writer): every status code 100..999 with rotating content types; 1200 (8000) random responses: all "
          "17 ContentType variants + custom, 0-20 extra fields over all tchar names / printable ASCII+HT values incl. names colliding "
@@ -508,9 +511,10 @@ PROPS["C11"] = dict(
 )
 
 PROPS["C18"] = dict(
+    gen=[("tables", "ServlinVerif/Gen/CodeTables.lean")],
     suites=["c18"],
     shards={"c18": 6},
-    lean_modules=["ServlinVerif.Props.C18"],
+    lean_modules=["ServlinVerif.Props.C18", "ServlinVerif.Props.CodeTables"],
     audit="Audit/C18.lean",
     rule="own process per shard (the logger is process-global): 600 (6000) scenarios of 1..3 phases, each phase installs a logger with a captured "
          "receiver (alive / already dropped) or none, then runs 1..8 threads concurrently, each a random program of 1..8 steps over {add thread "
